@@ -35,5 +35,9 @@ int main(int argc, char** argv) {
     Variables_Set vs; vs.insert(A); g.remove_space_dimensions(vs); std::cout << "KF18 gens=[" << g.grid_generators() << "] is_discrete=" << g.is_discrete() << "   (exact 1)\n"; }
   { Grid g(2, EMPTY); g.add_grid_generator(grid_point(0*B)); g.add_grid_generator(parameter(A));
     Variables_Set vs; vs.insert(A); g.remove_space_dimensions(vs); std::cout << "KF19 gens=[" << g.grid_generators() << "] is_bounded=" << g.is_bounded() << "   (exact 1)\n"; }
+  { Grid_Generator_System gs; gs.insert(parameter(A)); gs.insert(grid_point(0*A)); Grid g(gs);
+    std::cout << "KF20 {q(A), p(0)} rel (A = 0 mod 2): " << g.relation_with((A %= 0) / 2) << "   (exact STRICTLY_INTERSECTS)\n"; }
+  { Grid_Generator_System gs; gs.insert(grid_line(A)); gs.insert(grid_point(0*A)); Grid g(gs);
+    std::cout << "KF21 {l(A), p(0)} is_discrete=" << g.is_discrete() << "   (exact 0)\n"; }
   return 0;
 }
